@@ -88,9 +88,25 @@ def rule_consume(ctx: Ctx) -> None:
     stamp = [s for s in st if A.dotted(s.target) == "self._last" and A.dotted(getattr(s.node, "value", None)) == nname]
     lapse = [s for s in st if isinstance(s.target, ast.Name) and isinstance(s.node, ast.Assign) and ast.unparse(s.node.value) == f"{nname} - self._last"]
     refill = [s for s in st if isinstance(s.node, ast.AugAssign) and isinstance(s.node.op, ast.Add) and A.dotted(s.target) == "self._tokens"]
+    min_form = False
+    if not refill:
+        # idiom 2: self._tokens = min(<tokens> + <refill>, capacity)
+        refill = [s for s in st if isinstance(s.node, ast.Assign) and A.dotted(s.target) == "self._tokens" and isinstance(s.node.value, ast.Call)
+                  and A.call_name(s.node.value) == "min" and any(isinstance(x, ast.BinOp) and isinstance(x.op, ast.Add) for x in s.node.value.args)]
+        min_form = bool(refill)
+    # the raw (possibly negative, fractional) token count must be used: the public 'tokens' property clamps and truncates
+    prop = ctx.repo.funcs.get(f"{TB}.tokens")
+    lossy_prop = prop is not None and any(isinstance(x, ast.Call) and A.call_name(x) in ("max", "int") for x in ast.walk(prop.node))
+    clamped_reads = [n for n in A.body_nodes(fn) if isinstance(n, ast.Attribute) and n.attr == "tokens" and A.dotted(n) == "self.tokens"]
+    ctx.check(not (clamped_reads and lossy_prop), "C20.2", "consume() works on the raw token count, not the clamped public property", fn,
+              A.stmt_of(clamped_reads[0]) if clamped_reads else fn.node, "reads self._tokens only",
+              "consume() reads the public 'tokens' property, which is max(int(tokens), 0): the debt left by earlier callers is forgiven on "
+              "every call, so simultaneous callers on an empty bucket are all told to wait 1/rate and fire together")
     dec = [s for s in st if isinstance(s.node, ast.AugAssign) and isinstance(s.node.op, ast.Sub) and A.dotted(s.target) == "self._tokens"
            and A.const_value(s.node.value) == 1]
     cap = [s for s in st if isinstance(s.node, ast.Assign) and A.dotted(s.target) == "self._tokens" and A.dotted(s.node.value) == "self._tokens_per_period"]
+    if min_form and not cap:
+        cap = refill
     ctx.require(stamp and lapse and refill and dec and cap, "C20.2: consume() lost one of: lapse, re-stamp, refill, cap, decrement (unrecognised idiom)")
     rets = [n for n in g.nodes if n.kind == "stmt" and isinstance(n.ast, ast.Return)]
     ctx.floor("C20.2", "return statements in consume", len(rets), 2)
@@ -110,17 +126,31 @@ def rule_consume(ctx: Ctx) -> None:
               g.nodes_for(dec[0].stmt)[0])
     capn = g.nodes_for(cap[0].stmt)[0]
     captest = next((a for a in A.ancestors(cap[0].stmt) if isinstance(a, ast.If)), None)
-    order_ok = g.path_avoiding(g.entry, lambda n: n is sn_, lambda n: n is ln) is None and \
-        g.path_avoiding(g.entry, lambda n: n is dn, lambda n: n is rn) is None and captest is not None and \
-        g.path_avoiding(g.entry, lambda n: n is dn, lambda n: n in g.nodes_for(captest.test)) is None and \
-        g.path_avoiding(g.entry, lambda n: n is capn, lambda n: n is rn) is None
+    if min_form:
+        order_ok = g.path_avoiding(g.entry, lambda n: n is sn_, lambda n: n is ln) is None and \
+            g.path_avoiding(g.entry, lambda n: n is dn, lambda n: n is rn) is None
+    else:
+        order_ok = g.path_avoiding(g.entry, lambda n: n is sn_, lambda n: n is ln) is None and \
+            g.path_avoiding(g.entry, lambda n: n is dn, lambda n: n is rn) is None and captest is not None and \
+            g.path_avoiding(g.entry, lambda n: n is dn, lambda n: n in g.nodes_for(captest.test)) is None and \
+            g.path_avoiding(g.entry, lambda n: n is capn, lambda n: n is rn) is None
     ctx.check(order_ok, "C20.2", "statement order: measure, re-stamp, refill, cap at capacity, then take one", fn, dec[0].stmt, "ok",
               "the order of refill / cap / decrement changed (e.g. taking the token before capping lets the bucket hold capacity + 1)")
-    ctx.check(captest is not None and ast.unparse(captest.test) in ("self._tokens > self._tokens_per_period", "self._tokens >= self._tokens_per_period"),
-              "C20.2", "tokens never exceed the capacity", fn, captest.test if captest is not None else fn.node, "if tokens > capacity: tokens = capacity",
-              "cap test changed")
-    ctx.check(ast.unparse(refill[0].node.value).replace(" ", "") == f"{lapse[0].target.id}/self._period_duration*self._tokens_per_period", "C20.2",
-              "refill = elapsed / period x tokens-per-period", fn, refill[0].stmt, "ok", f"refill is {ast.unparse(refill[0].node.value)}")
+    if min_form:
+        args = refill[0].node.value.args
+        okcap = any(A.dotted(a) == "self._tokens_per_period" for a in args)
+        ctx.check(okcap, "C20.2", "tokens never exceed the capacity", fn, refill[0].stmt, "min(..., capacity)", "refill is not capped at the capacity")
+        rexpr = ast.unparse(refill[0].node.value)
+        names = {x.id for x in ast.walk(refill[0].node.value) if isinstance(x, ast.Name)}
+        rdefs = " ".join(ast.unparse(s_.node.value) for s_ in st if isinstance(s_.target, ast.Name) and s_.target.id in names and hasattr(s_.node, "value"))
+        okref = f"{lapse[0].target.id} / self._period_duration * self._tokens_per_period".replace(" ", "") in (rexpr + rdefs).replace(" ", "")
+        ctx.check(okref, "C20.2", "refill = elapsed / period x tokens-per-period", fn, refill[0].stmt, "ok", f"refill is {rexpr}")
+    else:
+        ctx.check(captest is not None and ast.unparse(captest.test) in ("self._tokens > self._tokens_per_period", "self._tokens >= self._tokens_per_period"),
+                  "C20.2", "tokens never exceed the capacity", fn, captest.test if captest is not None else fn.node, "if tokens > capacity: tokens = capacity",
+                  "cap test changed")
+        ctx.check(ast.unparse(refill[0].node.value).replace(" ", "") == f"{lapse[0].target.id}/self._period_duration*self._tokens_per_period", "C20.2",
+                  "refill = elapsed / period x tokens-per-period", fn, refill[0].stmt, "ok", f"refill is {ast.unparse(refill[0].node.value)}")
     decn = [g.nodes_for(d.stmt)[0] for d in dec]
     twice = [d for d in decn if any(x in decn for x in g.reach([d], labels=C.NO_EXC))]
     ctx.check(not twice, "C20.2", "at most one token is taken per call", fn, dec[0].stmt, "no path with two decrements", "more than one decrement on a path")
